@@ -100,7 +100,7 @@ def env_join(a, b):
 class InterpBase:
     """Statement level.  Mixed with ExprMixin and CallMixin in interp.py."""
 
-    MAX_ROUNDS = 8
+    MAX_ROUNDS = 24
 
     def __init__(self, prog: Program, hints=None, config=None):
         self.prog = prog
